@@ -96,6 +96,7 @@ def m_int(x, base=10):
         if base != 16: raise Unsupported("symbolic hexadecimal string parsed with another base")
         return MInt(_HEX[x])
     if isinstance(x, (MInt, MRatio, MWord)): raise Unsupported("int() of a proxy")
+    if isinstance(x, str) and "<hex#" in x: raise Unsupported("symbolic hexadecimal string decorated or parsed in a way the model does not cover")
     return builtins.int(x, base) if isinstance(x, str) else builtins.int(x)
 
 class MWord:
@@ -335,6 +336,10 @@ def c_mem_data_bounded(tier):
     d = tempfile.mkdtemp(prefix="vf_img_")
     def mkfile(name, n):
         data = bytes(rnd.randrange(1, 256) for _ in range(n)); p = os.path.join(d, name); open(p, "wb").write(data); return p, data
+    def gmd(*a, **k):
+        """an exception on a legal image description is a difference from the expected image (reported), not a harness crash"""
+        try: return get_mem_data(*a, **k)
+        except Exception as e: return ("raised", type(e).__name__, str(e)[:80])
     try:
         nmax = 40 if tier == "quick" else 150
         for dw in (32, 64, 128):
@@ -342,7 +347,7 @@ def c_mem_data_bounded(tier):
                 for n in range(1, nmax + 1):
                     p, data = mkfile("f.bin", n)
                     for off in (0, 0x40000000):
-                        got = get_mem_data(p, data_width=dw, endianness=end, offset=off, mem_size=n + 1); evals += 1
+                        got = gmd(p, data_width=dw, endianness=end, offset=off, mem_size=n + 1); evals += 1
                         if got != expected_image([(off, data)], off, dw, end): bad.append(("file", dw, end, n, off))
                 # dict of regions and a .json regions file (keys relative to the json's directory), aligned bases
                 for (na, nb, nc) in ((5, 3, 9), (16, 1, 2), (1, 31, 17)):
@@ -352,10 +357,10 @@ def c_mem_data_bounded(tier):
                     ba, bb, bc = off + 4 * bpw, off, off + 9 * bpw
                     if not (bb + nb <= ba and ba + na <= bc): continue
                     want = expected_image([(ba, da), (bb, db), (bc, dc)], off, dw, end)
-                    got = get_mem_data({pa: f"0x{ba:08x}", pb: f"{bb:x}", pc: f"0x{bc:x}"}, data_width=dw, endianness=end, offset=off); evals += 1
+                    got = gmd({pa: f"0x{ba:08x}", pb: f"{bb:x}", pc: f"0x{bc:x}"}, data_width=dw, endianness=end, offset=off); evals += 1
                     if got != want: bad.append(("dict", dw, end, na, nb, nc))
                     pj = os.path.join(d, "regions.json"); json.dump({"a.bin": f"0x{ba:08x}", "b.bin": f"0x{bb:08x}", "c.bin": f"0x{bc:08x}"}, open(pj, "w"))
-                    got = get_mem_data(pj, data_width=dw, endianness=end, offset=off); evals += 1
+                    got = gmd(pj, data_width=dw, endianness=end, offset=off); evals += 1
                     if got != want: bad.append(("json", dw, end, na, nb, nc))
         # fail-stop behaviour (documented preconditions): nothing is returned, so nothing wrong is published
         p, data = mkfile("g.bin", 12); pe, _ = mkfile("empty.bin", 0)
